@@ -25,7 +25,7 @@ def run : Runner
         let want := (List.range n).filter fun i => mb.getD i false
         let root := Merkle.calcHash comb (fun i => leaves.getD i zero32) n (Merkle.height n) 0
         if idx != natsTok want then "violated:index list"
-        else if ex != s!"{Bytes.tok root}/{hashesTok (want.map fun i => leaves.getD i zero32)}/{natsTok want}/0" then "violated:extract(build) round trip"
+        else if ex != s!"{Bytes.tok root}/{hashesTok (want.map fun i => leaves.getD i zero32)}/{natsTok want}/0/same" then "violated:extract(build) round trip"
         else "ok"
       | _ => "violated:shape"
     pure { model, prop }
